@@ -396,7 +396,7 @@ with exec (fuel : nat) (s : stmt) (en : env) (st : state) {struct fuel} : res (o
         do (_, st) <- call f g vs st;
         Ok (Normal, en, st)
     | SPrint items =>
-        do st <- print f items en st;
+        do st <- print f items [] en st;
         Ok (Normal, en, st)
     end
   end
@@ -441,17 +441,20 @@ with exec_list (fuel : nat) (ss : list stmt) (en : env) (st : state) {struct fue
     end
   end
 
-with print (fuel : nat) (items : list pitem) (en : env) (st : state) {struct fuel} : res state :=
+(* print!: all items are evaluated first (a callee's own output therefore comes
+   first), the formatted text is written once (generator.rs: generate_format builds
+   one snprintf call, then one write) *)
+with print (fuel : nat) (items : list pitem) (acc : list N) (en : env) (st : state) {struct fuel} : res state :=
   match fuel with
   | O => OutOfFuel
   | S f =>
     match items with
-    | [] => Ok st
-    | PStr bs :: r => print f r en {| store := store st; nexta := nexta st; out := out st ++ bs |}
+    | [] => Ok {| store := store st; nexta := nexta st; out := out st ++ acc |}
+    | PStr bs :: r => print f r (acc ++ bs) en st
     | PExpr e :: r =>
         do (v, st) <- eval f e en st;
         do bs <- show_value v;
-        print f r en {| store := store st; nexta := nexta st; out := out st ++ bs |}
+        print f r (acc ++ bs) en st
     end
   end.
 End Interp.
